@@ -228,7 +228,7 @@ def run_case(case):
     return res
 
 
-ALPHA = "abAB,; \n\t1:.|"
+ALPHA = "abAB,; \n\t1:.|ßİǰ"  # incl. characters whose case mapping changes the length
 
 
 def strategy():
